@@ -95,6 +95,7 @@ func (c *ptCase) settle() {
 			c.mu.Unlock()
 			if !again {
 				c.flush(gs2)
+				c.someoneResponsible()
 				return
 			}
 			continue
@@ -106,6 +107,61 @@ func (c *ptCase) settle() {
 		}
 		time.Sleep(30 * time.Microsecond)
 	}
+}
+
+// someoneResponsible is C13's own liveness condition evaluated on the settled REAL dispatcher: if a future
+// is pending, then some watcher's sleep ends no later than the earliest fire time (or has already run
+// out and is about to be served), or a wake token is waiting for a sleeping watcher.  Otherwise the
+// future is served only when some idle timer happens to run out — lateness in the order of idleTimeout
+// although no callback blocks.
+func (c *ptCase) someoneResponsible() {
+	w, h, tk := timeout.VerifPool()
+	if h == 0 || c.failed {
+		return
+	}
+	head, hid := -1, -1
+	for id, t := range c.fireT {
+		if !c.cancelled[id] && c.started[id] == 0 && (head < 0 || t < head) {
+			head, hid = t, id
+		}
+	}
+	if head < 0 {
+		return
+	}
+	c.mu.Lock()
+	defer c.mu.Unlock()
+	lim := head
+	if c.vnow > lim {
+		lim = c.vnow
+	}
+	var dls []int
+	nsleep := 0
+	for _, t := range c.threads {
+		if !t.exited && t.sleeping {
+			nsleep++
+			dls = append(dls, t.deadline)
+			if t.deadline <= lim {
+				return
+			}
+		}
+	}
+	for g, ps := range c.pendingSleep {
+		if c.thread(g) == nil {
+			nsleep++
+			dls = append(dls, ps[1].(int))
+			if ps[1].(int) <= lim {
+				return
+			}
+		}
+	}
+	if tk > 0 && nsleep > 0 {
+		return
+	}
+	if nsleep != w {
+		return // a watcher is not asleep (about to act): it is responsible
+	}
+	c.ctx.R.Quiet("mon C13-someone-responsible", fmt.Sprintf("future %d (fire time %d) is pending at virtual time %d, but all %d watcher(s) sleep until %v and no wake token is queued", hid, head, c.vnow, w, dls))
+	c.failed = true
 }
 
 func (c *ptCase) flush(gs map[int64]goState) {
@@ -139,7 +195,7 @@ func (c *ptCase) flush(gs map[int64]goState) {
 		case "start":
 			c.ctx.R.Op(fmt.Sprintf("start %d %d", t.idx, r.a), "ok")
 			// never early (virtual time), at most once
-			if !(r.b > c.fireT[r.a]) {
+			if !(r.b >= c.fireT[r.a]) {
 				c.ctx.R.Quiet("mon C13-never-early", fmt.Sprintf("future %d (fire time %d) started at virtual time %d", r.a, c.fireT[r.a], r.b))
 			}
 			if c.started[r.a] > 1 {
@@ -408,6 +464,13 @@ func runPool(ctx *Ctx) {
 				script = append(script, fmt.Sprintf("tick %d", []int{1, 2, 5, 11, idle + 1, 60}[r.Intn(6)]))
 			default:
 				script = append(script, fmt.Sprintf("fire %d", r.Intn(4)))
+			}
+		}
+		if maxWorkers >= 2 && r.Chance(1, 6) {
+			// directed: a watcher's sleep ends EXACTLY at the head's fire time while other watchers idle
+			script = []string{"add 0", "add 1", "tick 2", "fire 0", "add 1", "tick 1", "fire 0", "fire 0", "tick 1"}
+			if r.Chance(1, 2) {
+				script = append(script, "add 3", "tick 3", "fire 0", "fire 1")
 			}
 		}
 		runPoolCase(ctx, maxWorkers, idle, script)
